@@ -840,7 +840,7 @@ func FindInsertionPoints(src []byte) (*InsertionPoints, error) {
 	tf := fset.File(f.Pos())
 	ip := &InsertionPoints{}
 	lineStart := func(p token.Pos) int {
-		return tf.Offset(tf.LineStart(tf.Line(p)))
+		return tf.Offset(tf.LineStart(tf.PositionFor(p, false).Line))
 	}
 	ast.Inspect(f, func(n ast.Node) bool {
 		var list []ast.Stmt
